@@ -156,6 +156,13 @@ func checkC10(w *World, c *Check, tier string) {
 					if fp, ok := pr.fieldOf(st.Addr); ok && len(fp.Idx) == 1 && fp.RootType == actInfo.Named {
 						stored[fp.Names[0]] = true
 					}
+					// `for _, col := range [...]*ItemCollection{&a.To, …} { *col = … }`: a store through an element of a local
+					// array of field addresses writes each of those fields
+					for _, fa := range pointerArrayElems(st.Addr) {
+						if fp, ok := pr.fieldOf(fa); ok && len(fp.Idx) == 1 && fp.RootType == actInfo.Named {
+							stored[fp.Names[0]] = true
+						}
+					}
 				}
 			}
 		}
@@ -400,21 +407,37 @@ func checkC11(w *World, c *Check, tier string) {
 	}
 
 	// ---- walk ----
-	walked := func(fn *ssa.Function) map[string]bool {
+	var walkedOf func(fn *ssa.Function, recv int, depth int) map[string]bool
+	walkedOf = func(fn *ssa.Function, recv int, depth int) map[string]bool {
 		got := map[string]bool{}
+		if recv >= len(fn.Params) || depth > 3 {
+			return got
+		}
 		for _, call := range callsIn(fn) {
-			if call.Common().StaticCallee() != cleanRecipients || len(call.Common().Args) == 0 {
+			cal := call.Common().StaticCallee()
+			if cal == nil || len(call.Common().Args) == 0 || !dominatesAllReturns(call.Block()) {
 				continue
 			}
-			if !dominatesAllReturns(call.Block()) {
+			if cal == cleanRecipients {
+				if fp, ok := pr.fieldOf(call.Common().Args[0]); ok && len(fp.Idx) == 1 && fp.Root == pr.canonicalRoot(fn.Params[recv]) {
+					got[fp.Names[0]] = true
+				}
 				continue
 			}
-			if fp, ok := pr.fieldOf(call.Common().Args[0]); ok && len(fp.Idx) == 1 && fp.Root == pr.canonicalRoot(fn.Params[0]) {
-				got[fp.Names[0]] = true
+			// a helper that is handed the receiver itself (cleanEmbeddedRecipients(o)) walks on its behalf
+			if w.InPkg(cal) && cal != fn && cal.Blocks != nil {
+				for ai, a := range call.Common().Args {
+					if unwrap(a) == ssa.Value(fn.Params[recv]) && ai < len(cal.Params) {
+						for f := range walkedOf(cal, ai, depth+1) {
+							got[f] = true
+						}
+					}
+				}
 			}
 		}
 		return got
 	}
+	walked := func(fn *ssa.Function) map[string]bool { return walkedOf(fn, 0, 0) }
 	ow := walked(objClean)
 	for _, f := range c11Walk {
 		if ow[f] {
@@ -543,6 +566,26 @@ func isZeroLenSlice(v ssa.Value) bool {
 		if l, ok := x.Len.(*ssa.Const); ok && l.Value != nil && l.Int64() == 0 {
 			return true
 		}
+	case *ssa.Call:
+		// a small helper every return of which is a zero-length list (withoutMembers(col) { return col[:0] })
+		if cal := x.Common().StaticCallee(); cal != nil && cal.Blocks != nil && len(cal.Blocks) < 8 {
+			rbs := returnBlocks(cal)
+			if len(rbs) == 0 {
+				return false
+			}
+			for _, rb := range rbs {
+				ret := rb.Instrs[len(rb.Instrs)-1].(*ssa.Return)
+				if len(ret.Results) != 1 {
+					return false
+				}
+				if _, again := ret.Results[0].(*ssa.Call); again || !isZeroLenSlice(ret.Results[0]) {
+					return false
+				}
+			}
+			return true
+		}
+	case *ssa.ChangeType:
+		return isZeroLenSlice(x.X)
 	}
 	return false
 }
@@ -754,4 +797,46 @@ func sameListValue(a, b ssa.Value) bool {
 	la, ok1 := a.(*ssa.UnOp)
 	lb, ok2 := b.(*ssa.UnOp)
 	return ok1 && ok2 && la.X == lb.X
+}
+
+// pointerArrayElems: addr is an element read from a local array (or slice literal) of pointers; returns the pointer
+// values the array was filled with.
+func pointerArrayElems(addr ssa.Value) []ssa.Value {
+	var arr *ssa.Alloc
+	switch x := addr.(type) {
+	case *ssa.Index: // range over an array value: t = *arr; t[i]
+		if ld, ok := x.X.(*ssa.UnOp); ok && ld.Op == token.MUL {
+			arr, _ = ld.X.(*ssa.Alloc)
+		}
+	case *ssa.UnOp: // *(&arr[i]) or element of a slice of the array
+		if x.Op == token.MUL {
+			if ia, ok := x.X.(*ssa.IndexAddr); ok {
+				switch b := ia.X.(type) {
+				case *ssa.Alloc:
+					arr = b
+				case *ssa.Slice:
+					arr, _ = b.X.(*ssa.Alloc)
+				}
+			}
+		}
+	}
+	if arr == nil || arr.Referrers() == nil {
+		return nil
+	}
+	if _, isArr := derefType(arr.Type()).Underlying().(*types.Array); !isArr {
+		return nil
+	}
+	var out []ssa.Value
+	for _, r := range *arr.Referrers() {
+		ia, ok := r.(*ssa.IndexAddr)
+		if !ok || ia.Referrers() == nil {
+			continue
+		}
+		for _, rr := range *ia.Referrers() {
+			if st, ok := rr.(*ssa.Store); ok && st.Addr == ssa.Value(ia) {
+				out = append(out, st.Val)
+			}
+		}
+	}
+	return out
 }
